@@ -34,6 +34,30 @@ CHECKS = {
              'coverage_partial (cap tiling, parameter nets, cap-edge exactness); the measured covering radius (3.1 degrees) is reported as a test, not a theorem.',
         note='Partial on the coverage clause. Theorems are over exact reals; float rounding is covered only by the exhaustive differential run. np.floor(np.sqrt(uint16)) is modelled by Nat.sqrt (checked on every code).',
         design='§7 C18'),
+    'C15': dict(
+        technique='Lean 4 proof (nibble shuffle as arithmetic, bijection with six 12-bit fields; induction over the record stream with header state and write counter; rational round-trip bounds) + correspondence of the compiled model driver with pack9.unpack_pack9 (bounds-checked), _unpack_pack9.py_func and _expand_to_short',
+        text='Theorems pack_expand/expand_pack (bijection on all 2^72 byte patterns), unpack_count, unpack_write_index, unpack_short_output_faults, unpack_alloc_slice, '
+             'unpack_opts_independent, header_decode, pos_roundtrip/vel_roundtrip (within half a quantum), stream_roundtrip hold for every record stream, option pair, box and velocity '
+             'scale on a statement-by-statement exact-rational Lean model of pack9.py. Tied to /repo on every run: random/raw/malformed streams, every value of each of the 11 field positions, '
+             'all option pairs, float32/float64; integers, shapes, errors exact, floats within 6 ulp of the summed-term magnitude; an independent Fraction oracle of the format decides violations.',
+        note='Trusted: Lean kernel (+3 std axioms), harness and its stated float bound, NUMBA_BOUNDSCHECK; float rounding inside the kernel bounded, not modelled; rows assumed (N,9).',
+        design='§7 C15'),
+    'C16': dict(
+        technique='Lean 4 proof (case analysis over the key-presence patterns, the whole load/flag option space, column assembly) + exhaustive correspondence of the compiled model driver with read_abacus.read_asdf on synthetic ASDF files',
+        text='Theorems detect_spec/detect_error_iff, resolve_spec/resolve_flags/resolve_table, columns_general/columns_exact/columns_default, rows_spec, read_spec hold for every file '
+             'description, every load list and all deprecated flag values on a Lean model of read_asdf/_resolve_columns as coded. Tied to /repo on every run by an exhaustive run over file type x '
+             'all subsets of loadable columns x load_pos/load_vel in {None,True,False}^2 x dtype x header style plus all 16 key-presence patterns x explicit colnames; an oracle checks exact '
+             'column set, one row per particle, meta == header and bit-identity with direct calls of the C04/C15-verified decoders (which is what shows values do not depend on co-requests).',
+        note='Trusted: Lean kernel, harness, partfiles.py, asdf (validate_on_read off), astropy Table; column VALUES are not in the Lean model (delegated to C04/C15 theorems + the bitwise oracle).',
+        design='§7 C16'),
+    'C12': dict(
+        technique='Lean 4 proof over named parallel arrays (stable argsort is a permutation; gathering every column by one index list equals a record-wise permutation; searchsorted spec) + an ast translator regenerating the returned/permuted/allocated/filled array tables of AbacusHOD.staging + differential run and id-decoding oracle of the real AbacusHOD on synthetic subsample file sets',
+        text='staging_rows_aligned / sort_rows_aligned / ids_sorted / pinds_points_to_host / already_sorted_noop / argsort_is_perm hold for every flag set, slab count, slab content and id order '
+             'on a Lean model whose sort block permutes exactly the arrays listed in tables regenerated from the source on every run; returned_cols_permuted (decide over those tables) fails when a '
+             'returned array lacks its X = X[sortind] statement. The model is tied to /repo by running it and the real constructor/staging on exhaustive small id arrangements plus seeded random '
+             'file sets (1-4 slabs, chunking, all flags, MT naming, secondary/lightcone, 1-D deviates), compared exactly; an oracle decoding every attribute of every row back to its halo id decides violations.',
+        note='Trusted: Lean kernel (+propext, Classical.choice, Quot.sound); harness/stagegen.py encodings and the documented field-to-array mapping; the ast translator; h5py/asdf; numpy argsort/searchsorted/fancy indexing modelled by specification; duplicate-free ids only.',
+        design='§7 C12'),
 }
 
 NOT_YET = {}
